@@ -572,7 +572,7 @@ func (generator *BuilderGenerator) structObjectToBuilder(schemas Schemas, schema
 	structType := resolvedObjectType.AsStruct()
 	for _, field := range structType.Fields {
 		if fieldsAreBranches {
-			builder.Options = append(builder.Options, generator.structFieldToOption(field))
+			builder.Options = append(builder.Options, generator.constrainedFieldToOption(schemas, field))
 			continue
 		}
 
@@ -601,19 +601,25 @@ func (generator *BuilderGenerator) structObjectToBuilder(schemas Schemas, schema
 			continue
 		}
 
-		option := generator.structFieldToOption(field)
-
-		// a field typed by a reference to a scalar is bound by the constraints of that scalar
-		if field.Type.IsRef() {
-			if resolvedType := schemas.ResolveToType(field.Type); resolvedType.IsScalar() {
-				WithTypeConstraints(resolvedType.AsScalar().Constraints)(&option.Assignments[0])
-			}
-		}
-
-		builder.Options = append(builder.Options, option)
+		builder.Options = append(builder.Options, generator.constrainedFieldToOption(schemas, field))
 	}
 
 	return builder
+}
+
+// constrainedFieldToOption turns a field into an option, whose assignment
+// carries the constraints that the type of the field refers to.
+func (generator *BuilderGenerator) constrainedFieldToOption(schemas Schemas, field StructField) Option {
+	option := generator.structFieldToOption(field)
+
+	// a field typed by a reference to a scalar is bound by the constraints of that scalar
+	if field.Type.IsRef() {
+		if resolvedType := schemas.ResolveToType(field.Type); resolvedType.IsScalar() {
+			WithTypeConstraints(resolvedType.AsScalar().Constraints)(&option.Assignments[0])
+		}
+	}
+
+	return option
 }
 
 func (generator *BuilderGenerator) fieldIsRefToConcrete(schemas Schemas, field StructField) bool {
